@@ -144,19 +144,19 @@ impl<const L: usize> DynBook for OrderBook<L> {
         OrderBook::get_time(self)
     }
     fn set_time(&mut self, t: u64) {
-        OrderBook::set_time(self, t)
+        let _ = OrderBook::set_time(self, t);
     }
     fn enable_trading(&mut self) {
-        OrderBook::enable_trading(self)
+        let _ = OrderBook::enable_trading(self);
     }
     fn disable_trading(&mut self) {
-        OrderBook::disable_trading(self)
+        let _ = OrderBook::disable_trading(self);
     }
     fn get_trade_vol(&self) -> u32 {
         OrderBook::get_trade_vol(self)
     }
     fn reset_trade_vol(&mut self) {
-        OrderBook::reset_trade_vol(self)
+        let _ = OrderBook::reset_trade_vol(self);
     }
     fn ask_vol(&self) -> u32 {
         OrderBook::ask_vol(self)
@@ -217,16 +217,16 @@ impl<const L: usize> DynBook for OrderBook<L> {
         OrderBook::create_and_place_order(self, side_of(bid), vol, trader, price).map_err(|e| e.to_string())
     }
     fn place_order(&mut self, id: usize) {
-        OrderBook::place_order(self, id)
+        let _ = OrderBook::place_order(self, id);
     }
     fn cancel_order(&mut self, id: usize) {
-        OrderBook::cancel_order(self, id)
+        let _ = OrderBook::cancel_order(self, id);
     }
     fn modify_order(&mut self, id: usize, price: Option<u32>, vol: Option<u32>) {
-        OrderBook::modify_order(self, id, price, vol)
+        let _ = OrderBook::modify_order(self, id, price, vol);
     }
     fn process_event(&mut self, ev: &Ev) {
-        OrderBook::process_event(self, ev.to_event())
+        let _ = OrderBook::process_event(self, ev.to_event());
     }
     fn orders(&self) -> Vec<OrderRec> {
         OrderBook::get_orders(self).into_iter().map(order_rec).collect()
